@@ -242,7 +242,23 @@ func knownFracExpDigits(e expectation) bool {
 	return intp+exp > 20
 }
 
+// knownLongIntegerPart: float literal whose integer part has more than 800 digits (strconv's
+// slow path keeps 800 digits and misplaces the decimal point).
+func knownLongIntegerPart(e expectation) bool {
+	return e.Gram && len(e.Lit.Int) > 800
+}
+
 func checkLiteral(c litCase) error {
+	err := checkLiteral1(c)
+	if err != nil {
+		if k, ok := kindByName(c.Kind); ok && k.Class == "float" && knownLongIntegerPart(expect(k, c.Text)) && pbt.ExcludeKnown("KF-json-float-long-integer-part") {
+			return nil
+		}
+	}
+	return err
+}
+
+func checkLiteral1(c litCase) error {
 	k, ok := kindByName(c.Kind)
 	if !ok {
 		return fmt.Errorf("harness: unknown kind %q", c.Kind)
@@ -256,6 +272,9 @@ func checkLiteral(c litCase) error {
 	}
 	e := expect(k, c.Text)
 	uerr := protojson.Unmarshal([]byte(doc), msg)
+	if k.Class == "enum" && e.Quoted {
+		return nil // a JSON string for an enum field is a value *name*; digits in quotes are not specified by the property
+	}
 	if uerr != nil {
 		if !e.Accept {
 			return nil
@@ -335,6 +354,9 @@ func describe(k kindInfo, e expectation) string {
 func litClasses(c litCase) []string {
 	k, _ := kindByName(c.Kind)
 	e := expect(k, c.Text)
+	if k.Class == "enum" && e.Quoted {
+		return []string{"unspecified:enum-quoted"}
+	}
 	out := []string{"gen:" + c.Class, "kind:" + c.Kind, "place:" + c.Where, "oracle:" + e.Why}
 	if e.Quoted {
 		out = append(out, "quoted")
@@ -382,7 +404,7 @@ func nearLimit(k kindInfo, d decimal) bool {
 func intNonTrivial(c litCase) bool {
 	k, _ := kindByName(c.Kind)
 	e := expect(k, c.Text)
-	if !e.Gram {
+	if !e.Gram || (k.Class == "enum" && e.Quoted) {
 		return false
 	}
 	return (e.Lit.HasExp || e.Lit.Frac != "") && nearLimit(k, e.Decimal)
@@ -400,7 +422,7 @@ func TestIntLiteral(t *testing.T) {
 		Check:      checkLiteral,
 		NonTrivial: intNonTrivial,
 		Classes:    litClasses,
-		Quick:      60000, Thorough: 1500000,
+		Quick:      100000, Thorough: 1200000,
 	})
 }
 
@@ -418,6 +440,6 @@ func TestFloatLiteral(t *testing.T) {
 		Check:      checkLiteral,
 		NonTrivial: floatNonTrivial,
 		Classes:    litClasses,
-		Quick:      40000, Thorough: 1000000,
+		Quick:      50000, Thorough: 600000,
 	})
 }
